@@ -508,7 +508,7 @@ func runStream(c StreamCase) *ev.Failure {
 
 func genStream(t *rapid.T) StreamCase {
 	stream := func(r *Req, label string) {
-		r.Stream = uint16(rapid.IntRange(0, 15).Draw(t, label+"-stream"))
+		r.Stream = drawStream(t, label+"-stream")
 		if rapid.IntRange(0, 3).Draw(t, label+"-split") == 0 {
 			r.Split = rapid.IntRange(1, 27).Draw(t, label+"-split-at")
 		}
